@@ -89,6 +89,8 @@ def gen_instance(rng, profile="mixed", nj=None, nm=None):
         return gen_multibuf(rng)
     if profile == "dep":
         return gen_dep(rng)
+    if profile == "stale":
+        return gen_stale(rng)
     if profile == "outstart":
         d, feats = gen_multibuf(rng, out_start=True)
         feats["profile"] = "outstart"
@@ -290,6 +292,27 @@ def gen_dep(rng):
     d = {"title": "InstanceConfig", "instance_config": ic}
     feats = {"profile": "dep", "nj": nj, "nm": 2, "routes": routes, "travel": "const", "nagv": nagv,
              "start_time": 0, "roomy": True, "buffer_mode": "global"}
+    return d, feats
+
+
+def gen_stale(rng):
+    """Built for stale pickups of EARLY-dispatched AGVs: every job visits m-0 first (LIFO post-buffer), processing
+    times of 1-2 units and a constant travel time larger than them, so that an AGV sent for a job that is still being
+    processed arrives in the instant in which the machine releases the NEXT job on top of it. The episode is run with
+    early transport enabled (feats['force_early'])."""
+    nj = rng.randint(3, 5)
+    routes = [[(0, rng.randint(1, 2)), (1, rng.randint(1, 2))] for _ in range(nj)]
+    names = ["m-0", "m-1", "in-buf", "out-buf"]
+    c = rng.choice([2, 3, 3, 4])
+    mat = [[(0 if a == b else (c if rng.random() < 0.9 else rng.randint(1, 4))) for b in range(4)] for a in range(4)]
+    nagv = rng.randint(2, 4)
+    ic = {"description": "stale", "instance": {"description": "gen", "specification": job_spec_text(routes)},
+          "logistics": {"type": "agv", "amount": nagv, "specification": matrix_text(names, mat)},
+          "machines": {"prebuffer": [{"type": rng.choice(["fifo", "flex_buffer", "lifo"]), "capacity": nj + 1}],
+                       "postbuffer": [{"type": "lifo", "capacity": nj + 1}]}}
+    d = {"title": "InstanceConfig", "instance_config": ic}
+    feats = {"profile": "stale", "nj": nj, "nm": 2, "routes": routes, "travel": "const", "nagv": nagv,
+             "start_time": 0, "roomy": True, "buffer_mode": "global", "force_early": True}
     return d, feats
 
 
